@@ -156,7 +156,8 @@ def generate(term, opts=None):
     feats = list(o.get('features', []))
     uses_util = any(n.kind in 'UN' for n in T.states)
     if (uses_util or o.get('rng')) and 'UTILITY_THEORY' not in feats and 'ALL' not in feats: feats.append('UTILITY_THEORY')
-    has = lambda f: f in feats or 'ALL' in feats
+    ALLSET = ('PLANS', 'SERIALIZATION', 'STRUCTURE_REPORT', 'TRANSITION_HISTORY', 'UTILITY_THEORY')   # what HFSM2_ENABLE_ALL turns on
+    has = lambda f: f in feats or ('ALL' in feats and f in ALLSET)
     util = has('UTILITY_THEORY'); plans = has('PLANS'); serial = has('SERIALIZATION'); hist = has('TRANSITION_HISTORY')
     logi = has('LOG_INTERFACE') or has('VERBOSE_DEBUG_LOG'); srep = has('STRUCTURE_REPORT')
     rng = o.get('rng') or ('stub' if util else None)
@@ -219,6 +220,10 @@ static inline void vf_act(TC& c, int d) {
     L.append('}')
     def body(group, meth, ctl, kind):
         # kind: 'guard' (may cancel), 'full' (may request), 'event' (may consume+request), 'plain' (event only), 'query'
+        if kind == 'guard' and payload:
+            return '{ { const auto& pt = c.pendingTransitions(); for (unsigned i = 0; i < pt.count(); ++i) vf_obs(1, (int)(i | ((unsigned)pt[i].destination << 8) | ((unsigned)pt[i].type << 24)), (int)rd_payload(pt[i].payload()), this); } int d = vf_cb(ID, %d, this); if (d == -1) c.cancelPendingTransitions(); else vf_act(c, d); }' % meth
+        if kind == 'plain' and payload and meth == 5:
+            return '{ { const auto& ct = c.currentTransitions(); for (unsigned i = 0; i < ct.count(); ++i) vf_obs(2, (int)(i | ((unsigned)ct[i].destination << 8) | ((unsigned)ct[i].type << 24)), (int)rd_payload(ct[i].payload()), this); } vf_cb(ID, %d, this); }' % meth
         if kind == 'guard':
             if 'guard' in act: return '{ int d = vf_cb(ID, %d, this); if (d == -1) c.cancelPendingTransitions(); else vf_act(c, d); }' % meth
             return '{ int d = vf_cb(ID, %d, this); if (d == -1) c.cancelPendingTransitions(); }' % meth
@@ -292,6 +297,7 @@ struct VfLogger : M::LoggerInterface {
     ctor_args = []
     if util and rng == 'stub': ctor_args.append('g_rng')
     W = 'extern "C" __attribute__((noinline))'
+    FP = o.get('fnprefix', '')
     L.append('static StubRNG g_rng;')
     L.append('%s unsigned vf_sizeof(void) { return sizeof(VfInst); }' % W)
     if logi:
@@ -386,6 +392,9 @@ struct VfLogger : M::LoggerInterface {
         L.append('%s unsigned vf_prev_dest(const VfInst* m, unsigned i) { return m->v.previousTransitions()[i].destination; }' % W)
         L.append('%s unsigned vf_prev_type(const VfInst* m, unsigned i) { return (unsigned)m->v.previousTransitions()[i].type; }' % W)
         L.append('%s unsigned vf_prev_origin(const VfInst* m, unsigned i) { return m->v.previousTransitions()[i].origin; }' % W)
+        if payload:
+            L.append('%s unsigned vf_prev_payload(const VfInst* m, unsigned i) { return rd_payload(m->v.previousTransitions()[i].payload()); }' % W)
+            L.append('%s unsigned vf_last_to_payload(const VfInst* m, unsigned s) { const Inst::Transition* t = m->v.lastTransitionTo((hfsm2::StateID)s); return t ? rd_payload(t->payload()) : 0xfffffffcu; }' % W)
         L.append('%s int vf_last_to(const VfInst* m, unsigned s) { const Inst::Transition* t = m->v.lastTransitionTo((hfsm2::StateID)s); return t ? (int)(t - &m->v.previousTransitions()[0]) : -1; }' % W)
         L.append('%s unsigned vf_target_index(VfInst* m, unsigned s) { return m->v._core.transitionTargets[s]; }' % W)
         L.append('%s int vf_replay_prev(VfInst* dst, const VfInst* src) { return dst->v.replayTransitions(src->v.previousTransitions()); }' % W)
@@ -426,6 +435,14 @@ struct VfLogger : M::LoggerInterface {
         L.append('%s unsigned vf_task_bounds(VfInst* m, unsigned region, unsigned w) { return w ? m->v._core.planData.taskBounds[region].last : m->v._core.planData.taskBounds[region].first; }' % W)
     o['_util'] = util; o['_serial'] = serial; o['_plans'] = plans
     txt = '\n'.join(L) + '\n'
+    if FP:
+        import re as _re
+        stubs = ('vf_cb', 'vf_select', 'vf_rank', 'vf_utility', 'vf_rng', 'vf_payload', 'vf_log', 'vf_obs', 'vf_act')
+        txt = _re.sub(r'\bvf_([a-z_0-9]+)\b', lambda m: m.group(0) if m.group(0) in stubs else FP + m.group(0), txt)
+        # user types live in a per-configuration namespace so two configurations can be linked into one native binary
+        head, sep, rest = txt.partition('extern "C" int      vf_cb')
+        txt = head + sep + rest
+        i = txt.index('struct StubRNG'); txt = txt[:i] + 'namespace %sns {\n' % FP + txt[i:] + '\n} // namespace\n'
     if payload:
         mk = {'u32': 'static inline Payload mk_payload(unsigned v) { return (Payload)v; }\nstatic inline unsigned rd_payload(const Payload* p) { return p ? (unsigned)*p : 0xfffffffeu; }',
               'big': 'static inline Payload mk_payload(unsigned v) { Payload p; p.a = (uint8_t)v; p.b[0] = v * 0x100000001ull; p.b[1] = ~(uint64_t)v; return p; }\nstatic inline unsigned rd_payload(const Payload* p) { if (!p) return 0xfffffffeu; unsigned v = (unsigned)(p->b[0] & 0xffffffffu); return (p->a == (uint8_t)v && p->b[0] == v * 0x100000001ull && p->b[1] == ~(uint64_t)v) ? v : 0xfffffffdu; }',
